@@ -162,6 +162,23 @@ func (holder AnnotationHolder) FindFirstByValue(value string) *Attribute {
 	return nil
 }
 
+// FindFirstParameterAnnotationByValue returns the first *parameter* annotation (@Path, @Query, @Header,
+// @FormField or @Body) whose value is the given function parameter name.
+//
+// Unlike FindFirstByValue it cannot be fooled by an unrelated annotation that happens to carry the same
+// value, e.g. '@Security(token)' on a route that also has a 'token' header parameter.
+func (holder AnnotationHolder) FindFirstParameterAnnotationByValue(value string) *Attribute {
+	for _, attrib := range holder.attributes {
+		switch attrib.Name {
+		case GleeceAnnotationPath, GleeceAnnotationQuery, GleeceAnnotationHeader, GleeceAnnotationFormField, GleeceAnnotationBody:
+			if attrib.Value == value {
+				return &attrib
+			}
+		}
+	}
+	return nil
+}
+
 func (holder AnnotationHolder) FindFirstByProperty(key string, value string) *Attribute {
 	for _, attrib := range holder.attributes {
 		if attrib.Properties[key] == value {
